@@ -3,7 +3,7 @@ import random
 from harness.core import Ctx, replay, validate_traces, MachineryError
 
 SINGLE = {"works_for", "head_of"}
-FORMS = ["elem", "bulk", "assign", "insert"]
+FORMS = ["elem", "bulk", "assign", "insert", "iadd"]
 
 
 def judge_step(m, o):
@@ -38,7 +38,7 @@ def main():
                 "model (2 persons, 3 companies, a CEO role) and the /verif family model (transitive + inverse + skipped "
                 "hierarchy level) and the geo model (a transitive property without inverse and a sub-property of it, instances of a subclass "
                 "of the declaring class), with Closure(asserted) after each step; each sequence is replayed on real instances in one of "
-                "4 write forms (append/add, extend/update, assignment to an empty field, insert); after every step "
+                "5 write forms (append/add, extend/update, assignment to an empty field, insert, augmented assignment += / |=); after every step "
                 "SymbolGraph().relations() and every managed field are compared with the closure. Non-trivial = the closure "
                 "after the last step is larger than the asserted set; distinct by (model, sequence, form).")
     ctx.run_tlc("Ontology", "Ontology_mc_univ.cfg", expect="ok")
@@ -61,7 +61,7 @@ def main():
         elif len(hs) > 15000:
             hs = rnd.sample(hs, 15000)
         for i, h in enumerate(hs):
-            cases.append({"model": model, "h": h, "form": FORMS[i % len(FORMS)], "falsy": i % 5 == 2})
+            cases.append({"model": model, "h": h, "form": FORMS[i % len(FORMS)], "falsy": i % 7 == 2})
     ctx.cov["behaviours_in_bound"] = totals
     results = replay("onto", cases)
     ctx.replayed = len(cases)
